@@ -502,6 +502,13 @@ pub fn generate(seed: u64, run: u64, prop: &str) -> Generated {
                 .collect();
             synthetic.push(s);
         }
+        // partial declaration: one protected table has no synthetic counterpart (the compiler
+        // must then refuse - or, today, panic - rather than read the real table)
+        if synthetic.len() >= 2 && rs.chance(0.25) {
+            let i = rs.usize(synthetic.len());
+            synthetic.remove(i);
+            tags.push("synthetic_partial".into());
+        }
     }
 
     // ---------------- query ----------------
